@@ -126,6 +126,34 @@ pub fn state_for(r: &mut Rng, page: Page, op: u8) -> St {
     s
 }
 
+/// Make one of the address-forming registers (or the nn operand) point at or next to the
+/// instruction itself: self-modifying stores, stack over the code, operands read from the opcode.
+pub fn alias_pc(r: &mut Rng, s: &mut St, page: Page, op: u8) {
+    let delta = [0u16, 1, 2, 3, 0xFFFF, 0xFFFE][r.below(6) as usize];
+    let target = s.pc.wrapping_add(delta);
+    match r.below(7) {
+        0 => s.set_pair(H, target),
+        1 => s.set_pair(B, target),
+        2 => s.set_pair(D, target),
+        3 => s.sp = target.wrapping_add(2),
+        4 => {
+            let d = s.peek(s.pc.wrapping_add(2)) as i8 as i16 as u16;
+            s.set_pair(IXH, target.wrapping_sub(d));
+            s.set_pair(IYH, target.wrapping_sub(d));
+        }
+        5 => s.sp = target,
+        _ => {
+            // absolute operand nn
+            let at = match page {
+                Page::Base => s.pc.wrapping_add(1),
+                _ => s.pc.wrapping_add(2),
+            };
+            s.poke(at, &[target as u8, (target >> 8) as u8]);
+        }
+    }
+    let _ = op;
+}
+
 pub const RST_OPS: [u8; 8] = [0xC7, 0xCF, 0xD7, 0xDF, 0xE7, 0xEF, 0xF7, 0xFF];
 
 /// Add a random control situation: pending INT / NMI / halted.
